@@ -20,6 +20,12 @@ type Cell struct {
 	Param bool // pointee of a pointer parameter (or a map parameter): old() refers to its entry value
 	Ghost bool
 	ReadOnly bool
+	Reassigns []reassign // whole map/slice values stored at these sub-locations (for staleness of views)
+}
+
+type reassign struct {
+	path []PathElem
+	seq  int
 }
 
 type PathElem struct {
@@ -40,6 +46,9 @@ func (lv *LV) extend(pe PathElem) *LV {
 	p[len(lv.Path)] = pe
 	return &LV{Cell: lv.Cell, Path: p, Epoch: lv.Epoch}
 }
+
+// at: the same location, stamped with the current time (a view created now)
+func (lv *LV) at(seq int) *LV { return &LV{Cell: lv.Cell, Path: lv.Path, Epoch: seq} }
 
 func (lv *LV) String() string {
 	s := lv.Cell.Name
@@ -82,6 +91,7 @@ type Val struct {
 	Iter    *Cell // range iterator state
 	IterOf  *Val
 	NilIf   Term   // for a static pointer with P != nil: the condition under which it is nil (zero Term: never)
+	Shared  bool      // slice obtained by re-slicing another slice: its backing array has other live views
 	Src     ssa.Value // for ghost views: the SSA value a viewed variable currently is
 	Poison  string // merge of incompatible (dead) values: an error only if used
 	LValue  bool // produced by a contract expression: the address stands for the value stored there
